@@ -13,8 +13,8 @@ suite=$(go test -vet=off -count=1 ./... 2>&1 | grep -E "^(FAIL|---|panic)" | hea
 cp "$OUT/$DEMO" "$PKG/zz_mutdemo_test.go"
 RUN=$(grep -o 'func Test[A-Za-z0-9_]*' "$OUT/$DEMO" | sed 's/func //' | paste -sd'|')
 [ -z "$RUN" ] && { echo "NO-TESTS-IN-DEMO"; exit 3; }
-if go test -vet=off -count=1 "./$PKG/" -run "^($RUN)\$" >/tmp/demo_with.log 2>&1; then echo "demo_with_change=PASS(unexpected)"; else echo "demo_with_change=FAIL(expected)"; fi
+if go test -vet=off -count=1 "./$PKG/" -run "^($RUN)\$" >$OUT/confirm_with.log 2>&1; then echo "demo_with_change=PASS(unexpected)"; else echo "demo_with_change=FAIL(expected)"; fi
 git apply -R "$OUT/patch.diff" 2>/dev/null || { git checkout -q -- . ; }
-if go test -vet=off -count=1 "./$PKG/" -run "^($RUN)\$" >/tmp/demo_without.log 2>&1; then echo "demo_without_change=PASS(expected)"; else echo "demo_without_change=FAIL(unexpected)"; tail -5 /tmp/demo_without.log; fi
-grep -c "^=== RUN" /tmp/demo_without.log /tmp/demo_with.log 2>/dev/null
+if go test -vet=off -count=1 "./$PKG/" -run "^($RUN)\$" >$OUT/confirm_without.log 2>&1; then echo "demo_without_change=PASS(expected)"; else echo "demo_without_change=FAIL(unexpected)"; tail -5 $OUT/confirm_without.log; fi
+grep -c "^=== RUN" $OUT/confirm_without.log $OUT/confirm_with.log 2>/dev/null
 git checkout -q -- . ; git clean -qfd
